@@ -46,7 +46,7 @@ func mustPollSet(fns []*ssa.Function) map[*ssa.Function]bool {
 		must[f] = true // greatest fixed point
 	}
 	pollsAt := func(in ssa.Instruction) bool {
-		if _, ok := isCtxErrCall(in); ok {
+		if _, ok := isCtxPollInstr(in); ok {
 			return true
 		}
 		if c, ok := in.(*ssa.Call); ok {
@@ -149,7 +149,7 @@ func c11PollInLoops(c *Ctx, p *core.Prog) {
 			// remove the blocks that certainly poll; a remaining cycle is an iteration without a poll
 			polls := func(b *ssa.BasicBlock) bool {
 				for _, ins := range b.Instrs {
-					if _, ok := isCtxErrCall(ins); ok {
+					if _, ok := isCtxPollInstr(ins); ok {
 						return true
 					}
 					if call, ok := ins.(*ssa.Call); ok {
